@@ -6,13 +6,14 @@ Every detection i is the single atom  fld = i ; the observable results are
   table : value of the postprocessed tree for each of the 2^n assignments (mask order, bit i =
           detection i), or None when the tree contains a None / an error was raised.
 No backend is involved."""
+from impl.excname import exc_name
 from sigma.rule import SigmaDetections
 from sigma.exceptions import SigmaError
 from sigma import conditions as C
 
 
 def _exc(e):
-    return {"exc": type(e).__name__, "sigma": isinstance(e, SigmaError)}
+    return {"exc": exc_name(e), "sigma": isinstance(e, SigmaError)}
 
 
 def enc_parse(t):
